@@ -308,6 +308,19 @@ def subsolar(ctx, astronomy, us, rng):
                               {"signature": "C06:nan:%s:%r:%r" % (iso(us[i]), float(lo[i]), float(la[i])),
                                "utc": iso(us[i]), "lon": float(lo[i]), "lat": float(la[i]),
                                "cos_zen": repr(float(c[i])), "sun_zenith_angle": float(z[i]), "expected": want})
+            # altitude from get_alt_az at the same places: finite, and zenith = 90 deg - altitude
+            try:
+                with common.time_limit(60), np.errstate(all="ignore"):
+                    alt = np.degrees(np.asarray(astronomy.get_alt_az(t, lo, la)[0], float))
+                ba = ~(np.abs((90.0 - alt) - z) <= 1e-6) & ~nanclass
+                for i in np.where(ba)[0][:1]:
+                    ctx.violation("get_alt_az altitude at the %s (%s) is not 90 deg - zenith (NaN or inconsistent)" % (name, which),
+                                  {"signature": "C06:alt:%s:%r:%r" % (iso(us[i]), float(lo[i]), float(la[i])), "utc": iso(us[i]),
+                                   "lon": float(lo[i]), "lat": float(la[i]), "altitude_deg": float(alt[i]), "zenith_deg": float(z[i]),
+                                   "failing_in_batch": int(ba.sum())})
+            except Exception as e:
+                ctx.violation("get_alt_az raised %s" % type(e).__name__,
+                              {"signature": "C06:raise:subsolar3:%s" % type(e).__name__, "utc": iso(us[0]), "error": str(e)[:300]})
             b = bad(z - want, TOL_DEG) & ~nanclass
             if b.any():
                 idx = np.where(b)[0]
